@@ -21,7 +21,7 @@ import numpy as np
 from harness import common, gen
 from harness.props.c02 import lean_ops
 
-MODULES = ['CirqVerif.Props.C06']
+MODULES = ['CirqVerif.Props.C06', 'CirqVerif.Props.C06Rules']
 IGN = 'verif-ignore'
 REPEAT_KEYS = [True]
 
@@ -311,6 +311,7 @@ def run(ctx: common.Run):
     if not ok:
         ctx.report_unproved('lean-build', f'{failing}', {'theorem_or_correspondence': failing})
         return
+    check_rules(ctx, cirq)
     n = 40 if ctx.tier == 'quick' else 600
     rng = ctx.substream('circuits')
     so = structure_only(cirq)
@@ -472,6 +473,56 @@ def run(ctx: common.Run):
                 subs_out = [o.untagged for o in out.all_operations() if isinstance(o.untagged, cirq.CircuitOperation)]
                 if any(s not in subs_in for s in subs_out):
                     ctx.report_witness(f'not-deep:{name.split("(")[0]}', 'a sub-circuit was rewritten although deep transformation was not requested', dict(rep, impl_out=[repr(out)[:2500]], spec_out=[repr(subs_in)[:800]]))
+
+
+def check_rules(ctx, cirq):
+    """the passes emit exactly the right-hand sides of the rules proved in Props/C06Rules.lean (for every parameter value there):
+    per qubit, the sequence of emitted operations has the expected gates (matrices compared without phase freedom)"""
+    rng = ctx.substream('rules')
+    q0, q1 = cirq.LineQubit.range(2)
+    PX = lambda p, t=1.0: cirq.PhasedXPowGate(phase_exponent=p, exponent=t)
+    Z = lambda a: cirq.ZPowGate(exponent=a)
+    n = 12 if ctx.tier == 'quick' else 200
+    cases = []
+    for _ in range(n):
+        a, b = rng.choice([0.25, -0.3, 0.5, 1.0, 0.1234, rng.uniform(-1, 1)]), rng.choice([0.5, -0.7, 0.31, rng.uniform(-1, 1)])
+        p, t = rng.choice([0.0, 0.25, 0.4, -0.6, rng.uniform(-1, 1)]), rng.choice([0.5, 0.3, -0.45, 1.0, rng.uniform(-1, 1)])
+        x, z, ax = rng.uniform(-1, 1), rng.uniform(-1, 1), rng.uniform(-1, 1)
+        cases += [
+            ('C06_rule_z_through_phasedx', cirq.eject_z, [Z(a)(q0), PX(p, t)(q0)], {q0: [PX(p - a, t), Z(a)]}),
+            ('C06_rule_z_into_phasedxz', cirq.eject_z, [Z(a)(q0), cirq.PhasedXZGate(x_exponent=x, z_exponent=z, axis_phase_exponent=ax)(q0)],
+             {q0: [cirq.PhasedXZGate(x_exponent=x, z_exponent=z + a, axis_phase_exponent=ax - a)]}),
+            ('C06_rule_z_commutes_cz', cirq.eject_z, [Z(a)(q0), Z(b)(q1), (cirq.CZ ** t)(q0, q1)], {q0: [cirq.CZ ** t, Z(a)], q1: [cirq.CZ ** t, Z(b)]}),
+            ('C06_rule_z_through_swaplike', cirq.eject_z, [Z(a)(q0), Z(b)(q1), cirq.SWAP(q0, q1)], {q0: [cirq.SWAP, Z(b)], q1: [cirq.SWAP, Z(a)]}),
+            ('C06_rule_z_through_swaplike', cirq.eject_z, [Z(a)(q0), Z(b)(q1), cirq.ISWAP(q0, q1)], {q0: [cirq.ISWAP, Z(b)], q1: [cirq.ISWAP, Z(a)]}),
+            ('C06_rule_z_through_swaplike', cirq.eject_z, [Z(a)(q0), Z(b)(q1), cirq.ISWAP_INV(q0, q1)], {q0: [cirq.ISWAP_INV, Z(b)], q1: [cirq.ISWAP_INV, Z(a)]}),
+            ('C06_rule_z_after_pauli', cirq.eject_phased_paulis, [PX(p)(q0), Z(a)(q0), cirq.measure(q0, key='m')], {q0: [PX(p + a / 2), cirq.MeasurementGate(1, key='m')]}),
+            ('C06_rule_x_through_cz', cirq.eject_phased_paulis, [cirq.X(q0), (cirq.CZ ** t)(q0, q1), cirq.measure(q0, q1, key='m')],
+             {q0: [cirq.CZ ** -t, cirq.X, cirq.MeasurementGate(2, key='m')], q1: [Z(t), cirq.CZ ** -t, cirq.MeasurementGate(2, key='m')]}),
+        ]
+    for rule, f, ops, want in cases:
+        circuit = cirq.Circuit(ops)
+        out = f(circuit)
+        ctx.count('check', 'rule:' + rule)
+        ctx.case(['rule', rule, repr(circuit)], True)
+        rep = {'lines': [{'rule': rule, 'circuit': repr(circuit)}], 'theorem_or_correspondence': rule}
+        if True:
+            ok = True
+            for q, gates in want.items():
+                got = [o for o in out.all_operations() if q in o.qubits]
+                got = [o for o in got if not (len(o.qubits) == 1 and cirq.has_unitary(o) and np.allclose(cirq.unitary(o), np.eye(2), atol=1e-8))]
+                gates = [g for g in gates if not (cirq.num_qubits(g) == 1 and cirq.has_unitary(g) and np.allclose(cirq.unitary(g), np.eye(2), atol=1e-8))]
+                if len(got) != len(gates):
+                    ok = False
+                    break
+                for o, g in zip(got, gates):
+                    if cirq.is_measurement(o) or cirq.is_measurement(g):
+                        ok = ok and cirq.is_measurement(o) and cirq.is_measurement(g)
+                    else:
+                        uo, ug = cirq.unitary(o.gate), cirq.unitary(g)
+                        ok = ok and uo.shape == ug.shape and np.allclose(uo, ug, atol=1e-8)
+        if not ok:
+            ctx.report_witness(f'rule:{rule}', 'the pass does not emit the right-hand side of the commutation rule it is proved sound by', dict(rep, impl_out=[repr(out)[:2000]], spec_out=[repr(want)[:1500]]))
 
 
 def replay(ctx, rep):
